@@ -121,11 +121,13 @@ func (d *driver) readSome(to Dur) error {
 }
 
 // await waits until n more complete replies have arrived.
-func (d *driver) await(step, n int) {
+func (d *driver) await(step, n int) { d.awaitWithin(step, n, d.sc.AwaitTO) }
+
+func (d *driver) awaitWithin(step, n int, to Dur) {
 	target := d.nreplies + n
 	start := time.Now()
 	for d.nreplies < target {
-		left := d.sc.AwaitTO - time.Since(start)
+		left := to - time.Since(start)
 		if left <= 0 {
 			d.h.AwaitTO = append(d.h.AwaitTO, step)
 			return
@@ -283,7 +285,17 @@ func (d *driver) run(offer func(net.Conn) bool) {
 			if d.lmtp && d.accepted > 1 {
 				nn = d.accepted
 			}
-			d.await(i, nn)
+			// The first reply may take as long as a delivery takes; a refusal of the command
+			// itself is that one reply, a final LMTP response goes on with one reply per
+			// recipient, which follow within a minute.
+			d.await(i, 1)
+			if nn > 1 && !d.ended && d.lastCode != 501 && d.lastCode != 502 && d.lastCode != 503 {
+				burst := time.Minute
+				if d.sc.AwaitTO < burst {
+					burst = d.sc.AwaitTO
+				}
+				d.awaitWithin(i, nn-1, burst)
+			}
 			if d.lmtp && !d.ended {
 				// The size of an LMTP final response is the server's business
 				// (e.g. after a second MAIL inside a transaction): take whatever
